@@ -5,6 +5,9 @@ package bttest
 // Hooks for the verification harness (/verif). Compiled only with the build tag "verif".
 
 import (
+	"sync/atomic"
+	"time"
+
 	btapb "cloud.google.com/go/bigtable/admin/apiv2/adminpb"
 	btpb "cloud.google.com/go/bigtable/apiv2/bigtablepb"
 )
@@ -44,6 +47,38 @@ func (v *VerifServer) RunGC(table string) bool {
 		return false
 	}
 	tbl.gc(v.s.clock(), v.s.done, true)
+	return true
+}
+
+// RunGCUnforced runs the GC pass the background loop would run on the table: it does nothing unless the
+// table is dirty and has been neither read nor written for the quiescence period; false if unknown.
+func (v *VerifServer) RunGCUnforced(table string) bool {
+	v.s.mu.Lock()
+	tbl, ok := v.s.tables[table]
+	v.s.mu.Unlock()
+	if !ok {
+		return false
+	}
+	tbl.gc(v.s.clock(), v.s.done, false)
+	return true
+}
+
+// BackdateUse pretends the table was last read / last written that long ago (writeAgo < 0: not written
+// since the last GC pass).
+func (v *VerifServer) BackdateUse(table string, readAgo, writeAgo time.Duration) bool {
+	v.s.mu.Lock()
+	tbl, ok := v.s.tables[table]
+	v.s.mu.Unlock()
+	if !ok {
+		return false
+	}
+	now := time.Now().UnixNano()
+	atomic.StoreInt64(&tbl.lastReadNanos, now-int64(readAgo))
+	if writeAgo < 0 {
+		atomic.StoreInt64(&tbl.lastWriteNanos, 0)
+	} else {
+		atomic.StoreInt64(&tbl.lastWriteNanos, now-int64(writeAgo))
+	}
 	return true
 }
 
